@@ -757,6 +757,106 @@ def streams(c, shortcut, scale, tag=''):
   return n1, n2, n3
 
 
+def filter_stage(c):
+  """`PolicySupporter.GetTrials` on both real supporters (ServicePolicySupporter over the real servicer and
+  InRamPolicySupporter) with random tables and random combinations of trial_ids / min / max / status, vs
+  `getTrialsF` (c12_get_trials_filter)."""
+  import shim
+  shim.install()
+  from vcheck import svc
+  from vizier import pythia
+  from vizier import pyvizier as vz
+  from vizier._src.service import service_policy_supporter, vizier_service_pb2 as vsp
+  rng = c.rng
+  ST = {'requested': vz.TrialStatus.REQUESTED, 'active': vz.TrialStatus.ACTIVE, 'stopping': vz.TrialStatus.STOPPING,
+        'completed': vz.TrialStatus.COMPLETED}
+  n_tables = 4 if c.tier == 'quick' else 25
+  reqs, ctx = [], []
+  for ti in range(n_tables):
+    n = rng.randrange(0, 9)
+    states = [rng.choice(['requested', 'active', 'stopping', 'completed', 'completed-infeasible']) for _ in range(n)]
+    # ---- service table (ids 1..n; some deleted afterwards)
+    sv = svc.make_servicer('ram')
+    spec = svc.study_pb2.StudySpec(algorithm='RANDOM_SEARCH')
+    p = spec.parameters.add(parameter_id='x')
+    p.double_value_spec.min_value, p.double_value_spec.max_value = 0.0, XMAX
+    spec.metrics.add(metric_id='obj', goal=svc.study_pb2.StudySpec.MetricSpec.GoalType.MAXIMIZE)
+    sn = svc.create_study(sv, spec=spec).name
+    TS = svc.study_pb2.Trial.State
+    for i, st in enumerate(states):
+      # CreateTrial stores unfinished trials as REQUESTED; ACTIVE / STOPPING are reached through the API below
+      t = svc.study_pb2.Trial(state={'completed': TS.SUCCEEDED, 'completed-infeasible': TS.INFEASIBLE}.get(st, TS.REQUESTED))
+      t.parameters.add(parameter_id='x').value.number_value = float(i + 1)
+      if st == 'completed':
+        t.final_measurement.metrics.add(metric_id='obj', value=1.0)
+      if st == 'completed-infeasible':
+        t.infeasible_reason = 'bad' if i % 2 else ''
+      sv.CreateTrial(vsp.CreateTrialRequest(parent=sn, trial=t))
+    want_out = sum(1 for st in states if st in ('active', 'stopping'))
+    if want_out:
+      sv.SuggestTrials(vsp.SuggestTrialsRequest(parent=sn, suggestion_count=want_out, client_id='w'))   # served from the queue
+    for tp in list(sv.datastore.list_trials(sn)):
+      if tp.state == TS.ACTIVE and rng.random() < 0.5:
+        sv.StopTrial(vsp.StopTrialRequest(name=tp.name))
+    deleted = [i + 1 for i in range(n) if rng.random() < 0.2]
+    for d in deleted:
+      sv.DeleteTrial(vsp.DeleteTrialRequest(name='%s/trials/%d' % (sn, d)))
+    ssup = service_policy_supporter.ServicePolicySupporter(sn, sv)
+    names = {TS.REQUESTED: 'requested', TS.ACTIVE: 'active', TS.STOPPING: 'stopping', TS.SUCCEEDED: 'completed', TS.INFEASIBLE: 'completed'}
+    env_service = [[int(tp.id), int(tp.id), names[tp.state]] for tp in sv.datastore.list_trials(sn)]     # the table as stored
+    # ---- in-RAM table (ids 1..n, never removed)
+    problem = vz.ProblemStatement()
+    problem.search_space.root.add_float_param('x', 0.0, XMAX)
+    problem.metric_information.append(vz.MetricInformation(name='obj', goal=vz.ObjectiveMetricGoal.MAXIMIZE))
+    isup = pythia.InRamPolicySupporter(problem)
+    for i, st in enumerate(states):
+      t = vz.Trial(parameters={'x': float(i + 1)})
+      if st == 'requested':
+        t.is_requested = True
+      elif st == 'stopping':
+        t.stopping_reason = 'stop'
+      elif st == 'completed':
+        t.complete(vz.Measurement({'obj': 1.0}))
+      elif st == 'completed-infeasible':
+        t.complete(vz.Measurement(), infeasibility_reason='bad' if i % 2 else '')
+      isup.AddTrials([t])
+    env_inram = [[i + 1, i + 1, states[i].split('-')[0]] for i in range(n)]
+    for fi in range(10 if c.tier == 'quick' else 30):
+      f = {}
+      if rng.random() < 0.5:
+        f['ids'] = sorted(set(rng.randrange(0, n + 3) for _ in range(rng.randrange(0, 5))))
+        if rng.random() < 0.3:
+          rng.shuffle(f['ids'])
+      if rng.random() < 0.5:
+        f['min'] = rng.randrange(0, n + 2)
+      if rng.random() < 0.5:
+        f['max'] = rng.randrange(0, n + 2)
+      if rng.random() < 0.6:
+        f['st'] = rng.choice(sorted(ST))
+      kw = dict(trial_ids=f.get('ids'), min_trial_id=f.get('min'), max_trial_id=f.get('max'),
+                status_matches=ST[f['st']] if 'st' in f else None)
+      for name, sup, env in (('ServicePolicySupporter', ssup, env_service), ('InRamPolicySupporter', isup, env_inram)):
+        try:
+          got = [t.id for t in sup.GetTrials(**kw)]
+        except Exception as e:  # pylint: disable=broad-except
+          got = 'raised %s: %s' % (type(e).__name__, e)
+        reqs.append(dict(f, op='filter', env=env))
+        ctx.append((name, env, f, got))
+  outs = c.lean('C12', reqs)
+  for (name, env, f, got), m in zip(ctx, outs):
+    c.traces += 1
+    nconds = sum(1 for k in ('ids', 'min', 'max', 'st') if k in f)
+    c.count(1, ('filter', name, json.dumps(env), json.dumps(f, sort_keys=True)) if nconds >= 2 and len(env) >= 3 else None,
+            kind='GetTrials:%s:%d-conditions' % (name, nconds))
+    if 'error' in m:
+      raise core.InfraError('C12 driver: %s' % m)
+    if got != m['ids']:
+      fail('GetTrials-filter-wrong:' + name,
+                    '%s.GetTrials(%s) on the trial table %s returned ids %s; the trials meeting every given condition are %s' % (
+                        name, json.dumps(f, sort_keys=True), env, got, m['ids']),
+                    {'supporter': name, 'table [id, uid, status]': env, 'filter': f, 'real': got, 'expected': m['ids']})
+
+
 def run(c):
   import glob
   import os
@@ -770,6 +870,7 @@ def run(c):
     corpus.append(replay_case(blob.get('case', blob)))
   judge_and_compare(c, corpus, shortcut, 'witness')
   n1, n2, n3 = streams(c, shortcut, 1.0)
+  filter_stage(c)
   flush_fails(c)
   c.coverage_extra['streams'] = {'witness/corpus histories': len(corpus), 'service top-kept': n1, 'service max-id-deleted': n2, 'inram': n3}
   c.coverage_extra['theorem_to_check'] = {
